@@ -22,6 +22,10 @@ structure Cfg where
   /-- D70: "missing fragment condition" is located two columns before the scanner's position after the token
   (`p.line, p.col-2`) instead of where `on` was expected -/
   fragCondPosAfterToken : Bool := true
+  /-- D88: `readOp` takes the column of an operation after skipping to its name but keeps the line it had before,
+  so with the name on a later line (a comment or a line break after `query`) line and column come from
+  different lines -/
+  opLineBeforeSkip : Bool := true
 
 variable (cm : CM) (cfg : Cfg)
 
@@ -190,6 +194,7 @@ def readOp (fuel : Nat) (p : P) : ((List UInt8 × Int × Int) × Option Err) × 
   match skipSp cm p with
   | (none, p) => ((([], line, col0), some ioErr), p)     -- `op.col = p.col` is skipped when skipSpace fails
   | (some _, p) =>
+    let line : Int := if cfg.opLineBeforeSkip then line else p.line
     let col : Int := p.col
     match readToken cm p with
     | ((t, true), p) => (((t, line, col), some ioErr), p)
